@@ -34,6 +34,7 @@ func init() {
 		Quick:      all("./encoding/protojson", "./encoding/prototext"),
 		Thorough:   all("./..."),
 		Run: func(c *Ctx) {
+			c.ruleAnyDupFlag("R-ANY-DUP-FLAG")
 			c.ruleRecursionGuard(recScope{
 				Rule:  "R-RECURSION-GUARD",
 				Pkgs:  jsonTextDecoderPkgs,
@@ -55,6 +56,8 @@ func init() {
 				}, 40)
 			c.ruleScanner("R-SCAN-TEXT-NUMBER-BOUNDS", scannerSpec{key: "internal/encoding/text.parseNumber", what: "text-format number", boundsOnly: true})
 			c.ruleScanner("R-SCAN-TEXT-NUMBER-BOUNDS", scannerSpec{key: "internal/encoding/text.parseIdent", what: "text-format identifier", boundsOnly: true})
+			c.ruleScanner("R-SCAN-JSON-BOUNDS", scannerSpec{key: "encoding/protojson.parseDuration", what: "Duration JSON string", boundsOnly: true})
+			c.ruleScanner("R-SCAN-JSON-BOUNDS", scannerSpec{key: "internal/encoding/json.parseNumber", what: "JSON number", boundsOnly: true})
 			c.ruleSetInts()
 			c.ruleJSONFollow("R-JSON-FOLLOW")
 		},
